@@ -11,6 +11,7 @@
 import MitmVerif.Lemmas.C05_Map
 import MitmVerif.Lemmas.C05_Sub
 import MitmVerif.Lemmas.C05_C03Run
+import MitmVerif.Lemmas.C05_Bytes
 namespace MitmVerif.Props.C05
 open MitmVerif MitmVerif.C05
 
@@ -296,5 +297,32 @@ theorem good2_from_httpstream (σ : St) (t : Nat) (ev : Ev) (l tt : Nat) (evs : 
   have := g ((evsOf t σ.sub).map shape) (shape ev) (post.map shape) (by rw [h]; simp)
   unfold Good2
   rw [← allowed_shape]; exact this
+
+/-! ### whole-history form of the byte conservation -/
+
+/-- In EVERY reachable state (`Reach`: any interleaving of client events, received segments with WINDOW_UPDATE / SETTINGS
+    / RST_STREAM / GOAWAY, queueing, the resume loop), for every client stream `t` with upstream id `o`: the DATA bytes
+    written to the wire on `o` (`dataOf o out` — what the server decodes on that stream) followed by the bytes still
+    buffered for `o` are a prefix of the body data the HTTP layer handed over for `t` and `Http2Client` passed on —
+    nothing of another stream, nothing twice, nothing out of order — and ALL of it as long as hyper-h2 still lets us
+    send on `o`; and no DATA was ever written on an id not yet allocated. -/
+theorem upstream_bytes_own_stream (σ : St) (h : Reach σ) (t o : Nat) (ho : alookup t σ.ours = some o) :
+    σ.conn.held o <+: dataBytes (fwOf t σ)
+    ∧ dataOf o σ.conn.out <+: dataBytes (fwOf t σ)
+    ∧ (σ.conn.liveS o = true → σ.conn.held o = dataBytes (fwOf t σ))
+    ∧ (∀ x, σ.nextId ≤ x → dataOf x σ.conn.out = []) := by
+  have b := reach_b σ h
+  have k := b.pb t o ho
+  refine ⟨k.1, (List.prefix_append _ _).trans k.1, k.2, fun x hx => ?_⟩
+  have := b.fresh x hx
+  unfold Conn.held at this
+  exact (List.append_eq_nil_iff.mp this).1
+
+/-- … and that is a prefix of the body data submitted for `t` (the rest is still queued or being handled) -/
+theorem upstream_bytes_prefix_of_submitted (σ : St) (h : Reach σ) (hc : σ.closed = false) (t o : Nat)
+    (ho : alookup t σ.ours = some o) : dataOf o σ.conn.out <+: dataBytes (evsOf t σ.sub) := by
+  have c := ((reach_inv σ h).live hc).cons t
+  rw [← c, List.append_assoc, dataBytes_append]
+  exact (upstream_bytes_own_stream σ h t o ho).2.1.trans (List.prefix_append _ _)
 
 end MitmVerif.Props.C05
